@@ -6,6 +6,7 @@ import (
 	"strings"
 	"time"
 
+	mcp "trpc.group/trpc-go/trpc-mcp-go"
 	"verif/sim"
 )
 
@@ -40,6 +41,10 @@ func runC06(c *Ctx) {
 	w := newWorld(c, mode, "srv")
 	w.register(func(r registrar) { registerEcho(c, r, w.Count) })
 	s.Net.Faults = sim.NetFaults{ShortRead: t.Pick(0, 20)}
+	if (mode == "json" || mode == "post-sse") && t.Bool(15) {
+		c06StalledConsumer(c, w, mode)
+		return
+	}
 	inputs := append(genMutations("m"), genGarbage("g")...)
 	const batch = 24
 	start := (int(c.Run) / len(allModes) * batch) % len(inputs)
@@ -251,4 +256,97 @@ func framesText(fr [][]byte) string {
 		parts = append(parts, string(f))
 	}
 	return strings.Join(parts, " | ")
+}
+
+// c06StalledConsumer: a peer opens its listening stream and stops reading it (its socket buffers
+// fill up, the server's writes to it block) while the server keeps sending to it.  The stalled
+// peer may only cost itself: other clients open their streams, call, are notified and delete their
+// sessions as usual.
+func c06StalledConsumer(c *Ctx, w *World, mode string) {
+	s, t := c.S, c.T
+	c.SetPlan("adversary", "stalled consumer of its listening stream")
+	sid, err := rawSession(c, "srv")
+	if err != nil {
+		s.Violate("C06|adversary-handshake|mode="+mode, "raw handshake failed: %v", err)
+		return
+	}
+	rs, err := rawOpenStream(c, "adv/get", "GET", "http://srv/mcp", withSession(map[string]string{"Accept": "text/event-stream"}, sid), nil)
+	if err != nil || rs.Status != 200 {
+		s.Violate("C06|adversary-handshake|mode="+mode, "GET stream refused: %v", err)
+		return
+	}
+	rs.Conn.StopReading(8 << 10)
+	before := len(s.LiveLibTasks())
+	nSend := 3 + t.Draw(6)
+	var senders []*sim.Task
+	for k := 0; k < 1+t.Draw(2); k++ {
+		senders = append(senders, s.Go(fmt.Sprintf("sender%d", k), func() {
+			for i := 0; i < nSend; i++ {
+				w.Srv.SendNotification(sid, "notifications/verif", map[string]interface{}{"pad": payload("p", 4<<10)})
+				s.Yield("sender#next")
+			}
+		}))
+	}
+	s.Settle(5 * time.Millisecond) // the senders are blocked in their writes by now
+	good := s.Go("good", func() {
+		cl := w.newClient()
+		seen := newCounter()
+		cl.HTTP.RegisterNotificationHandler("notifications/verif", func(n *mcp.JSONRPCNotification) error {
+			v, _ := n.Params.AdditionalFields["nonce"].(string)
+			seen.Inc(v)
+			return nil
+		})
+		if err := initClient(c, cl); err != nil {
+			s.Violate("C06|good-client-init|mode="+mode+"|stalled-peer", "while another peer does not read its stream a well-behaved client cannot initialize: %v", err)
+			return
+		}
+		for i := 0; i < 200 && mcp.VerifGetSSEStreamCount(w.Srv) < 2; i++ {
+			s.Settle(time.Millisecond)
+		}
+		if mcp.VerifGetSSEStreamCount(w.Srv) < 2 {
+			s.Violate("C06|good-client-starved|mode="+mode+"|stream", "while another peer does not read its stream a well-behaved client's listening stream is not established")
+		}
+		for i := 0; i < 2; i++ {
+			nonce := c.Nonce("ok")
+			ctx, cancel := context.WithTimeout(context.Background(), 2*time.Minute)
+			res, err := cl.API.CallTool(ctx, callToolReq("echo", map[string]interface{}{"nonce": nonce}))
+			cancel()
+			if err != nil || textOf(res) != "r:"+nonce {
+				s.Violate(fmt.Sprintf("C06|good-client-starved|mode=%s|%s", mode, errClass(err)), "while another peer does not read its stream a well-behaved client's call failed: %v", err)
+			}
+		}
+		nn := c.Nonce("N")
+		done := false
+		nt := s.Go("good/notify", func() {
+			if err := w.Srv.SendNotification(cl.HTTP.GetSessionID(), "notifications/verif", map[string]interface{}{"nonce": nn}); err != nil {
+				s.Violate("C06|good-client-starved|mode="+mode+"|notification", "a notification to a well-behaved client failed while another peer does not read its stream: %v", err)
+			}
+			done = true
+		})
+		s.WaitTasks(time.Minute, nt)
+		s.Settle(10 * time.Millisecond)
+		if !done || seen.Get(nn) != 1 {
+			s.Violate("C06|good-client-starved|mode="+mode+"|notification", "a notification to a well-behaved client was delivered %d times (send returned: %v) while another peer does not read its stream", seen.Get(nn), done)
+		}
+		ctx, cancel := context.WithTimeout(context.Background(), time.Minute)
+		terr := cl.HTTP.TerminateSession(ctx)
+		cancel()
+		if terr != nil {
+			s.Violate(fmt.Sprintf("C06|good-client-starved|mode=%s|delete-%s", mode, errClass(terr)), "a well-behaved client cannot end its session while another peer does not read its stream: %v", terr)
+		}
+		cl.API.Close()
+	})
+	for _, a := range s.WaitTasks(10*time.Minute, good) {
+		s.Violate("C06|deadlock|mode="+mode+"|stalled-peer", "%s never finished while another peer does not read its stream (lock-blocked tasks: %v)", a.Name, s.LockBlocked())
+	}
+	// the adversary goes away: everything it held up ends
+	rs.Close()
+	for _, a := range s.WaitTasks(5*time.Minute, senders...) {
+		s.Violate("C06|deadlock|mode="+mode+"|stalled-peer-gone", "%s is still blocked after the stalled peer's connection is gone", a.Name)
+	}
+	s.Settle(50 * time.Millisecond)
+	if after := len(s.LiveLibTasks()); after > before {
+		s.Violate("C06|goroutine-leak|mode="+mode+"|stalled-peer", "%d library goroutines before, %d after the stalled peer left: %v", before, after, s.LiveLibTasks())
+	}
+	s.Probe("c06.stalled_consumer")
 }
